@@ -138,6 +138,8 @@ def run_dropped_only(impl, case, out):
 def run_history(impl, case, out):
     if case.get('only_dropped'):
         return run_dropped_only(impl, case, out)
+    if case.get('order'):
+        return run_overlap(impl, case, out)
     events, k, with_poll = case['events'], case['queued'], case['poll']
     w = peer.make_world(impl, server_kwargs=dict(max_http_buffer_size=L, ping_interval=5, ping_timeout=5,
                                                  async_handlers=False))
@@ -269,6 +271,71 @@ def run_history(impl, case, out):
         if ('final', 'websocket') not in led.seen[n0:]:
             V(out, impl, 'message_lost', 'after_recovery', 'message after the second handshake not on the new socket: %r' % led.seen, case)
         return 'failed+recovered'
+    finally:
+        w.teardown()
+
+
+def run_overlap(impl, case, out):
+    """Two upgrade sockets opened on one polling session before either handshake has finished. Socket A runs the correct
+    handshake; socket B sends the frames of the case; every interleaving of the two frame sequences. Whatever B does, a
+    handshake completed on A holds: the session is on WebSocket, on A."""
+    b_events, order = case['b'], case['order']
+    w = peer.make_world(impl, server_kwargs=dict(max_http_buffer_size=L, ping_interval=5, ping_timeout=5, async_handlers=False))
+    led = Ledger()
+    try:
+        sid = peer.sid_of(peer.open_polling(w))
+        a = peer.ws_upgrade(w, sid)
+        b = peer.ws_upgrade(w, sid)
+        if not a.accepted:
+            V(out, impl, 'upgrade_socket_refused', 'setup', 'first upgrade socket refused', case)
+            return None
+        if not b.accepted:
+            return 'second-refused'        # refusing the overlapping attempt outright is fine
+        qa, qb = ['2probe', '5'], list(b_events)
+        a_done = []
+        for who in order:
+            sock, q = (a, qa) if who == 'A' else (b, qb)
+            if not q:
+                continue
+            ev = q.pop(0)
+            if sock.server_closed or sock.done:
+                continue
+            if who == 'A' and ev == '5' and '3probe' not in peer.ws_frames(a):
+                continue                    # A only sends UPGRADE after its probe was answered
+            fire_event(w, sock, ev)
+            w.run()
+            if who == 'A':
+                a_done.append(ev)
+        b_correct = b_events[:2] == ['2probe', '5']
+        trig = 'overlapping_sockets'
+        led.sent.append('after')
+        w.call('send', sid, 'after')
+        w.run()
+        g = peer.poll(w, sid) if w.transport(sid) == 'polling' and sid in w.live_sids() else None
+        led.absorb_poll(g)
+        g2 = None
+        if g is not None and g.done and not [x for x in led.seen if x[0] == 'after']:
+            g2 = peer.poll(w, sid)
+            led.absorb_poll(g2)
+        led.absorb_ws(a)
+        led.absorb_ws(b)
+        if sid not in w.live_sids():
+            if 'CLOSE' in b_events or '1' in b_events:
+                return 'ended'
+            V(out, impl, 'session_lost', trig, 'the session ended (B sent %r)' % (b_events,), case)
+            return None
+        if a_done == ['2probe', '5'] and not b_correct:
+            if w.transport(sid) != 'websocket':
+                V(out, impl, 'established_websocket_disturbed', trig,
+                  'socket A completed probe + UPGRADE, socket B sent %r (order %s): transport() = %r'
+                  % (b_events, ''.join(order), w.transport(sid)), case)
+            elif ('after', 'websocket') not in led.seen or 'after' not in [f[2][1:] for f in a.frames if isinstance(f[2], str)]:
+                V(out, impl, 'established_websocket_disturbed', trig,
+                  'socket A completed probe + UPGRADE, socket B sent %r (order %s): a later message was seen %r, not on A'
+                  % (b_events, ''.join(order), led.seen), case)
+        for kind, text in led.problems(True):
+            V(out, impl, kind, trig, text + ' (B sent %r, order %s)' % (b_events, ''.join(order)), case)
+        return 'overlap'
     finally:
         w.teardown()
 
@@ -471,6 +538,11 @@ def run(ctx):
         for k in (0, 1, 2, 3):
             for poll in (False, True):
                 jobs.append(('hist', impl, {'events': [], 'queued': k, 'poll': poll, 'only_dropped': True}))
+        b_alpha = ['2probe', '5', '4x', '2', 'CLOSE', '']
+        b_seqs = [[e] for e in b_alpha] + [list(t) for t in itertools.product(b_alpha, repeat=2)]
+        for bs in b_seqs:
+            for order in sorted(set(itertools.permutations(['A', 'A'] + ['B'] * len(bs)))):
+                jobs.append(('hist', impl, {'events': [], 'queued': 0, 'poll': False, 'b': bs, 'order': list(order)}))
         jobs.append(('cfg', impl, None))
     res = parallel.pmap_chunks(_work, parallel.split(jobs, ctx.workers * 6), ctx.workers, ctx.seed, maxtasks=6)
     n = 0
